@@ -7,8 +7,13 @@ import sys
 from vlib import e2e, values
 
 sys.path.insert(0, "/verif/harness/py")
+import agent as ag  # noqa: E402
 import ber  # noqa: E402
 import usm  # noqa: E402
+
+
+def ag_make(env, kw):
+    return ag.make_sock(env.fast, env.agent, 3, timeout_ns=0, **kw)
 
 
 def hx(b):
@@ -47,17 +52,32 @@ def e2e_repr(v):
 class Sess:
     """one client session under test + its recorded history"""
 
-    def __init__(self, env, peer, rng, label=None):
+    def __init__(self, env, peer, rng, label=None, deferred=False):
         self.env, self.peer, self.rng = env, peer, rng
-        self.conv = e2e.Conv(peer, env)
+        label = label or (peer.label + (":deferred" if deferred else ""))
+        self.deferred = deferred and peer.kind == "v3"
+        if self.deferred:
+            # what the Python clients do without an engine id: the default user (no name, no keys) until discovery
+            import copy
+            self.kw0 = dict(engine_id=b"", user_name="", auth_alg=0, auth_key=b"", priv_alg=0, priv_key=b"")
+            self.conv = e2e.Conv(peer, env, sock=ag_make(env, self.kw0))
+            self.final_state = peer.state
+            self.peer = copy.copy(peer)
+            self.peer.state = ag.V3AgentState(b"", boots=0, time=0, user="")
+            self.peer.discover = False
+            self.conv.peer = self.peer
+            peer = self.peer
+        else:
+            self.conv = e2e.Conv(peer, env)
+            self.kw0 = peer.state.client_kwargs(with_engine_id=not peer.discover) if peer.kind == "v3" else None
         self.iters = []
         self.events = []      # model event strings
         self.expect = []      # implementation observations in the model's rendering
         self.records = []     # dicts for the oracles
-        self.failed_priv_sends = 0
-        self.seed = None
+        self.installs = [{"seed": None, "failed": 0, "priv": peer.state.priv_alg if peer.kind == "v3" else 0}]
         self.pending_ok = False   # the last send succeeded (recv is meaningful)
         self.label = label or peer.label
+        self.discovered = False
         self.keys_installs = 0
 
     # -- model configuration ----------------------------------------------------
@@ -67,12 +87,36 @@ class Sess:
             return "v1," + hx(p.community.encode())
         if p.kind == "v2c":
             return "v2c," + hx(p.community.encode())
-        kw = p.state.client_kwargs(with_engine_id=not p.discover)
+        kw = self.kw0
         return ",".join(["v3", hx(kw["engine_id"]), hx(kw["user_name"].encode()), str(kw["auth_alg"]),
-                         hx(kw["auth_key"]), str(kw["priv_alg"]), hx(kw["priv_key"]), str(self.seed or 0)])
+                         hx(kw["auth_key"]), str(kw["priv_alg"]), hx(kw["priv_key"]), str(self.installs[0]["seed"] or 0)])
 
     def line(self):
-        return f"session {self.cfg()} {';'.join(self.events) if self.events else '-'}"
+        evs = ";".join(self.events) if self.events else "-"
+        for k, inst in enumerate(self.installs):
+            evs = evs.replace("{SEED%d}" % k, str(inst["seed"] or 0))
+        return f"session {self.cfg()} {evs}"
+
+    def set_keys(self, state):
+        """install another user / key set (a V3AgentState describes it); the agent side follows"""
+        import copy
+        kw = state.client_kwargs()
+        r = e2e.ncall(lambda: self.conv.sock.set_keys(kw["user_name"], kw["auth_alg"], kw["auth_key"], kw["priv_alg"],
+                                                      kw["priv_key"]))
+        k = len(self.installs)
+        self.events.append(f"setkeys,{hx(kw['user_name'].encode())},{kw['auth_alg']},{hx(kw['auth_key'])},"
+                           f"{kw['priv_alg']},{hx(kw['priv_key'])},{{SEED{k}}}")
+        self.installs.append({"seed": None, "failed": 0, "priv": state.priv_alg})
+        self.records.append({"kind": "setkeys", "session": self.label, "result": r, "state": state})
+        if r[0] == "ok":
+            self.peer = copy.copy(self.peer)
+            self.peer.state = state
+            self.conv.peer = self.peer
+            self.expect.append("ok")
+        else:
+            self.installs[-1]["priv"] = self.installs[-2]["priv"]
+            self.expect.append(render_result(r))
+        return r
 
     def expected(self):
         return "ok " + "|".join(self.expect)
@@ -116,8 +160,8 @@ class Sess:
             self.pending_ok = True
         else:
             self.pending_ok = False
-            if r[0] == "exc" and r[1] == "SnmpEncodeError" and self.peer.kind == "v3" and self.peer.state.priv_alg:
-                self.failed_priv_sends += 1
+            if r[0] == "exc" and r[1] == "SnmpEncodeError" and self.peer.kind == "v3" and self.installs[-1]["priv"]:
+                self.installs[-1]["failed"] += 1
         self.events.append(f"send,{call},{rr},{rm},{bm}")
         if r[0] == "ok":
             dg = self.conv.raw[-1] if self.conv.raw else b""
@@ -127,15 +171,17 @@ class Sess:
         return rec
 
     def _learn_seed(self, req):
-        if self.seed is not None or not req.get("encrypted"):
+        inst = self.installs[-1]
+        if inst["seed"] is not None or not req.get("encrypted") or len(req["priv_params"]) != 8:
             return
         salt = req["priv_params"]
-        if self.peer.state.priv_alg == 1:
+        inst["sent"] = inst.get("sent", 0)
+        if inst["priv"] == 1:
             c = int.from_bytes(salt[4:8], "big")
-            self.seed = (c - self.failed_priv_sends) % 2 ** 32
+            inst["seed"] = (c - inst["failed"]) % 2 ** 32
         else:
             c = int.from_bytes(salt, "big")
-            self.seed = (c - self.failed_priv_sends) % 2 ** 64
+            inst["seed"] = (c - inst["failed"]) % 2 ** 64
 
     def recv(self, op, datagrams, it=None):
         self.conv.inject(datagrams)
@@ -177,6 +223,27 @@ def compare(expect, model_out):
 
 # ---------------------------------------------------------------- history generator
 
+def discovery_flow(s, lose_first=False):
+    """what the Python clients' refresh() does with a deferred user: probe, Report, set_keys, then an
+    authenticated probe for the time window (RFC 3414 sec. 4)"""
+    rec = s.send("refresh")
+    s.discovered = True
+    if rec["result"][0] != "ok" or not s.conv.req or "request_id" not in s.conv.req:
+        return False
+    req = s.conv.req
+    st = s.final_state if s.deferred else s.peer.state
+    r = s.recv("refresh", [st.report(req["request_id"], req["msg_id"], user=req["user"])])
+    if r["result"][0] != "ok":
+        return False
+    s.set_keys(st)
+    rec = s.send("refresh")
+    if rec["result"][0] != "ok" or not s.conv.req or "request_id" not in s.conv.req:
+        return False
+    req = s.conv.req
+    s.recv("refresh", [st.report(req["request_id"], req["msg_id"], auth=bool(st.auth_alg))])
+    return True
+
+
 BIG_MAXREP = [1, 2, 20, 127, 128, 255, 256, 32767, 32768, 65535, 65536, 2 ** 24, 2 ** 31 - 1]
 
 
@@ -211,6 +278,9 @@ def run_history(env, rng, peers, n_sessions, steps, oversize_bias=0.08, reply_bi
     sess = [Sess(env, rng.choice(peers), rng) for _ in range(n_sessions)]
     for _ in range(steps):
         s = rng.choice(sess)
+        if s.peer.kind == "v3" and s.peer.discover and not s.discovered:
+            discovery_flow(s)
+            continue
         v3 = s.peer.kind == "v3"
         k = rng.random()
         if k < oversize_bias:
@@ -263,3 +333,44 @@ def run_history(env, rng, peers, n_sessions, steps, oversize_bias=0.08, reply_bi
         elif rng.random() < 0.3:
             s.recv(op, [], it=it)
     return sess
+
+
+def model_compare(chk, sess, model_ok=True, label="session"):
+    """replay the recorded session histories on the Lean model (`session` requests) and report the first
+    disagreement as a correspondence break. Returns (lines run, disagreements)."""
+    from vlib import common
+    todo = [s for s in sess if s.events]
+    if not model_ok or not todo:
+        return 0, 0
+    lines = [s.line() for s in todo]
+    out, rc, err = common.run_model(lines)
+    nd = 0
+    for s, ln, mo in zip(todo, lines, out + ["<missing>"] * (len(lines) - len(out))):
+        d = compare(s.expect, mo)
+        if d:
+            nd += 1
+            if nd == 1:
+                chk.violation("correspondence",
+                              f"session history of {s.label}: event {d[0]} implementation {str(d[1])[:120]} model {str(d[2])[:120]}",
+                              {"kind": "correspondence", "stream": label, "lines": [ln[:400000]], "impl": [str(d[1])[:500]],
+                               "model": [str(d[2])[:500]],
+                               "broken": [f"correspondence {label} histories: Lean Session.send/recvLoop vs /repo"]},
+                              no_input=True)
+    return len(lines), nd
+
+
+def rand_v3_peer(rng, auth=None, priv=None, discover=False, kt=None):
+    """a v3 identity with boundary-biased field widths (they move the auth-parameter offset)"""
+    auth = rng.choice([0, 1, 2]) if auth is None else auth
+    priv = (rng.choice([0, 1, 2]) if auth else 0) if priv is None else priv
+    eng = bytes(rng.getrandbits(8) for _ in range(rng.choice([5, 5, 9, 11, 12, 17, 31, 32])))
+    user = "".join(rng.choice("abcXYZ09_-") for _ in range(rng.choice([0, 1, 8, 16, 31, 32])))
+    kts = ["password", "master", "localized"]
+    akt = kt or rng.choice(kts)
+    pkt = kt or rng.choice(kts)
+    apw = bytes(rng.getrandbits(8) for _ in range(rng.choice([1, 8, 13, 64, 100])))
+    ppw = bytes(rng.getrandbits(8) for _ in range(rng.choice([1, 8, 13, 64, 100])))
+    boots = rng.choice([0, 1, 127, 128, 255, 256, 65535, 65536, 2 ** 24, 2 ** 31 - 1])
+    time = rng.choice([0, 1, 127, 128, 32767, 32768, 2 ** 23, 2 ** 31 - 1, rng.getrandbits(31)])
+    return e2e.Peer("v3", auth=auth, priv=priv, engine_id=eng, user=user, auth_pw=apw, priv_pw=ppw,
+                    auth_kt=akt, priv_kt=pkt, boots=boots, time=time, discover=discover)
